@@ -277,12 +277,12 @@ type Handler func(conn *ConnState, sql string) Response
 
 // Assignment is one item of a SET statement as understood by the session model.
 type Assignment struct {
-	Kind      string // "names", "sys", "user", "global", "transaction"
+	Kind      string // "names", "charset" (SET CHARACTER SET), "sys", "user", "global", "transaction"
 	Name      string // lower-case variable name (without @ / @@session.)
 	Value     string // canonical value text (quotes removed)
 	Raw       string // value text as written
 	Default   bool   // = DEFAULT (for user variables: = NULL)
-	Charset   string // Kind == "names"
+	Charset   string // Kind == "names" or "charset"
 	Collation string // Kind == "names", "" = default collation of Charset
 }
 
@@ -290,6 +290,10 @@ type Assignment struct {
 type Server struct {
 	Version        string // default "5.7.30-fake"
 	DefaultCharset string // "utf8mb4"; used for SET NAMES DEFAULT and character_set_x = DEFAULT
+	// DBCharset / DBCollation stand for @@character_set_database / @@collation_database:
+	// SET CHARACTER SET x sets client and results to x but the connection to these.
+	DBCharset   string
+	DBCollation string
 	// Users, when non-nil, maps user -> clear-text password and authentication is
 	// checked (mysql_native_password); nil accepts anybody.
 	Users map[string]string
@@ -317,7 +321,7 @@ func Start() (*Server, error) {
 	if err != nil {
 		return nil, err
 	}
-	s := &Server{Version: "5.7.30-fake", DefaultCharset: "utf8mb4", ln: ln, conns: map[uint32]*ConnState{}, nextID: 1000, logging: true}
+	s := &Server{Version: "5.7.30-fake", DefaultCharset: "utf8mb4", DBCharset: "utf8mb4", DBCollation: "utf8mb4_general_ci", ln: ln, conns: map[uint32]*ConnState{}, nextID: 1000, logging: true}
 	s.wg.Add(1)
 	go s.acceptLoop()
 	return s, nil
@@ -1080,7 +1084,7 @@ func (s *Server) builtin(c *ConnState, sql string, ev *Event) Response {
 // is assigned): character set and collation names.
 func (s *Server) checkSet(c *ConnState, as []Assignment) *Response {
 	for _, a := range as {
-		if a.Kind != "names" {
+		if a.Kind != "names" && a.Kind != "charset" {
 			continue
 		}
 		cs := a.Charset
@@ -1128,6 +1132,13 @@ func (s *Server) applySet(c *ConnState, as []Assignment) {
 			}
 			c.Sess.CharsetClient, c.Sess.CharsetConnection, c.Sess.CharsetResults = cs, cs, cs
 			c.Sess.Collation = coll
+		case "charset":
+			cs := a.Charset
+			if cs == "default" {
+				cs = s.DefaultCharset
+			}
+			c.Sess.CharsetClient, c.Sess.CharsetResults = cs, cs
+			c.Sess.CharsetConnection, c.Sess.Collation = s.DBCharset, s.DBCollation
 		case "user":
 			if a.Default {
 				delete(c.Sess.UserVars, a.Name)
@@ -1286,6 +1297,12 @@ func ParseSet(sql string) ([]Assignment, error) {
 				return nil, errors.New("missing character set name")
 			}
 			a := Assignment{Kind: "names", Charset: strings.ToLower(Unquote(of[skip])), Raw: it}
+			if f[0] != "names" {
+				a.Kind = "charset" // SET CHARACTER SET / SET CHARSET
+				if len(of) != skip+1 {
+					return nil, fmt.Errorf("near '%s'", strings.Join(of[skip+1:], " "))
+				}
+			}
 			if len(of) > skip+1 {
 				if !strings.EqualFold(of[skip+1], "collate") || len(of) != skip+3 {
 					return nil, fmt.Errorf("near '%s'", strings.Join(of[skip+1:], " "))
